@@ -32,7 +32,12 @@ EqualPubKey == 417
 HaltAlreadyExists == 118
 VoteExpired == 120
 VoteAlreadyExists == 121
-StakingTypes == {"Delegate", "Unbond", "MoveStake", "LockStake", "SetCandidateOn", "SetCandidateOff", "SetHaltBlock", "VoteUpdate"}
+CandidateExists == 401
+WrongCommission == 402
+PublicKeyInBlockList == 410
+PeriodLimitReached == 413
+StakingTypes == {"Delegate", "Unbond", "MoveStake", "LockStake", "SetCandidateOn", "SetCandidateOff", "SetHaltBlock", "VoteUpdate",
+                 "DeclareCandidacy", "EditCandidate", "EditCandidateCommission"}
 
 \* world constants: cfg is a record with chain, unbond, move, jail, stakePeriod, initial and optionally lock, window, grace, minStake
 LockPeriod(cfg) == IF "lock" \in DOMAIN cfg THEN cfg.lock ELSE 34560
@@ -62,8 +67,9 @@ AddFrozen(s, due, o, p, c, v, to) == [s EXCEPT !.frozen = Append(@, [due |-> due
 StakingSupported(s, tx) ==
    /\ tx.type \in StakingTypes
    /\ tx.gasCoin = Base /\ s.priceCoin = Base
-   /\ (tx.type \in {"Delegate", "Unbond", "MoveStake"} => tx.args.coin = Base)
+   /\ (tx.type \in {"Delegate", "Unbond", "MoveStake", "DeclareCandidacy"} => tx.args.coin = Base)
    /\ \A p \in DOMAIN s.cands : Len(s.cands[p].stakes) < 1000
+   /\ (tx.type = "DeclareCandidacy" => Cardinality(DOMAIN s.cands) < 100 /\ s.deleted = <<>>)
 
 FeeShort(s, tx) == Bal(s, tx.sender, Base) \prec PriceFor(s, tx)
 
@@ -147,6 +153,43 @@ RunSetOff(s, tx) ==
       ELSE IF FeeShort(s, tx) THEN FailWith(InsufficientFunds, s, tx, tx.sender)
       ELSE Res(OK, DropVal([Paid(s, tx) EXCEPT !.cands[p].status = 1], p), PriceFor(s, tx))
 
+\* ---------------------------------------------------------------- candidates: DeclareCandidacy, EditCandidate, EditCandidateCommission
+\* a new candidate: owner = the declared address, reward and control address = the sender, offline, next free id, the stake a pending update
+MaxId(s) == LET ids == {s.cands[p].id : p \in DOMAIN s.cands} IN IF ids = {} THEN 0 ELSE CHOOSE i \in ids : \A j \in ids : j <= i
+RunDeclare(s, tx, h) ==
+   LET a == tx.args  o == tx.sender  fee == PriceFor(s, tx)
+   IN IF ~CoinExists(s, a.coin) THEN FailWith(CoinNotExists, s, tx, o)
+      ELSE IF a.pub \in DOMAIN s.cands THEN FailWith(CandidateExists, s, tx, o)
+      ELSE IF \E i \in DOMAIN s.blocked : s.blocked[i] = a.pub THEN FailWith(PublicKeyInBlockList, s, tx, o)
+      ELSE IF a.comm > 100 THEN FailWith(WrongCommission, s, tx, o)
+      ELSE IF Bal(s, o, a.coin) \prec a.stake \/ Bal(s, o, Base) \prec fee \/ (a.coin = Base /\ Bal(s, o, Base) \prec (a.stake ++ fee))
+      THEN FailWith(InsufficientFunds, s, tx, o)
+      ELSE LET s1 == SubBal(Paid(s, tx), o, a.coin, a.stake)
+               cd == [id |-> MaxId(s) + 1, owner |-> a.address, control |-> o, reward |-> o, status |-> 1, jailedUntil |-> 0, comm |-> a.comm,
+                      lastEdit |-> h, total |-> Zero, stakes |-> <<>>, upd |-> <<[o |-> o, c |-> a.coin, v |-> a.stake, bv |-> Zero]>>]
+           IN Res(OK, [s1 EXCEPT !.cands = (a.pub :> cd) @@ @], fee)
+OwnerCode(s, tx) ==
+   LET p == tx.args.pub
+   IN IF p \notin DOMAIN s.cands THEN CandidateNotFound
+      ELSE IF tx.sender # s.cands[p].owner THEN IsNotOwnerOfCandidate
+      ELSE OK
+RunEditCandidate(s, tx) ==
+   LET a == tx.args  code == OwnerCode(s, tx)
+   IN IF code # OK THEN FailWith(code, s, tx, tx.sender)
+      ELSE IF FeeShort(s, tx) THEN FailWith(InsufficientFunds, s, tx, tx.sender)
+      ELSE Res(OK, [Paid(s, tx) EXCEPT !.cands[a.pub].reward = a.reward, !.cands[a.pub].owner = a.owner, !.cands[a.pub].control = a.control], PriceFor(s, tx))
+\* the commission moves by at most 10 points at a time and at most once in three unbond periods
+RunEditCommission(s, tx, h, cfg) ==
+   LET a == tx.args  code == OwnerCode(s, tx)
+   IN IF code # OK THEN FailWith(code, s, tx, tx.sender)
+      ELSE LET c == s.cands[a.pub].comm
+               hi == IF c + 10 > 100 THEN 100 ELSE c + 10
+               lo == IF c < 10 THEN 0 ELSE c - 10
+           IN IF a.comm < lo \/ a.comm > hi THEN FailWith(WrongCommission, s, tx, tx.sender)
+              ELSE IF s.cands[a.pub].lastEdit + 3 * cfg.unbond > h THEN FailWith(PeriodLimitReached, s, tx, tx.sender)
+              ELSE IF FeeShort(s, tx) THEN FailWith(InsufficientFunds, s, tx, tx.sender)
+              ELSE Res(OK, [Paid(s, tx) EXCEPT !.cands[a.pub].comm = a.comm, !.cands[a.pub].lastEdit = h], PriceFor(s, tx))
+
 \* ---------------------------------------------------------------- governance votes: SetHaltBlock, VoteUpdate
 \* a vote is [h, votes (candidate keys in order of arrival), what]; one entry per height for halts, one per (height, version) for updates
 VotesField(t) == IF t = "SetHaltBlock" THEN "haltVotes" ELSE "updVotes"
@@ -183,6 +226,9 @@ RunTxS(s, tx, h, cfg) ==
           [] tx.type = "SetCandidateOn" -> RunSetOn(s, tx, h)
           [] tx.type = "SetCandidateOff" -> RunSetOff(s, tx)
           [] tx.type \in {"SetHaltBlock", "VoteUpdate"} -> RunVote(s, tx, h)
+          [] tx.type = "DeclareCandidacy" -> RunDeclare(s, tx, h)
+          [] tx.type = "EditCandidate" -> RunEditCandidate(s, tx)
+          [] tx.type = "EditCandidateCommission" -> RunEditCommission(s, tx, h, cfg)
 
 \* ================================================================ BeginBlock
 InGrace(s, h, cfg) == \/ (h >= cfg.initial - 1 /\ h <= cfg.initial - 1 + GraceLen(cfg))
